@@ -106,6 +106,16 @@ def replyRecorded (o' : Obs) (op : Op) (r : Reply) : Bool :=
   | none => true
   | some m => r.rc != 1 || r.yi == 0 || o'.leases.any (fun l => l.mac == m && l.ip == r.yi)
 
+/-- The address of the reply is recorded, but under a hardware address of
+another length that agrees with the client's on the common prefix (what
+`copy(lease.HWAddr, mac)` leaves when a recycled lease had a longer or shorter
+address).  Only names the cause of a `replyRecorded` failure. -/
+def hybridRecorded (o' : Obs) (op : Op) (r : Reply) : Bool :=
+  match op.mac? with
+  | none => false
+  | some m => o'.leases.any (fun l => l.ip == r.yi && l.mac.length != m.length &&
+      l.mac.take m.length == m.take l.mac.length)
+
 def poolAddrs (c : Conf) : List Nat := (List.range (c.stop + 1 - c.start)).map (c.start + ·)
 
 /-- Some pool address is neither leased nor reserved. -/
@@ -175,7 +185,8 @@ def specCoreWhy (c : Conf) (o : Obs) (op : Op) (r : Reply) (o' : Obs) : Option S
   else if !dynInPool c o' then some "dynamic-outside-pool"
   else if !dynNotReserved o' then some "dynamic-on-reservation"
   else if !reservedOK o' op r then some "reserved-client-other-address"
-  else if !replyRecorded o' op r then some "reply-not-in-table"
+  else if !replyRecorded o' op r then
+    some (if hybridRecorded o' op r then "offer-recorded-under-hybrid-hardware-address" else "reply-not-in-table")
   else if !offerLive c o op r then some "no-offer-though-free"
   else if !bitsAgree c o' then some "bitset-disagrees"
   else if !ipIndexAgree o' then some "ip-index-disagrees"
@@ -232,10 +243,24 @@ def specStoreWhy (o : Obs) (op : Op) (r : Reply) (o' : Obs) : Option String :=
           else "host-index-misses-lease" ++ atOp op r)
   else none
 
+/-- The reservations of the table, in table order. -/
+def reservationsOf (o : Obs) : List LeaseV := (o.leases.filter (·.static)).map LeaseV.norm
+
+/-- Reservations change only through the static-lease API: no DHCP message (and
+no lapse of time) adds, removes, moves or re-assigns one ("a client with a
+reservation is only ever given that address" — also after other clients'
+traffic). -/
+def reservationsKept (o : Obs) (op : Op) (o' : Obs) : Bool :=
+  match op with
+  | .discover .. | .request .. | .decline .. | .release .. | .sleep .. => reservationsOf o == reservationsOf o'
+  | _ => true
+
 def specWhy (c : Conf) (o : Obs) (op : Op) (r : Reply) (o' : Obs) : Option String :=
   match specCoreWhy c o op r o' with
   | some w => some w
-  | none => specStoreWhy o op r o'
+  | none =>
+    if !reservationsKept o op o' then some ("reservation-changed-by-dhcp-message" ++ atOp op r)
+    else specStoreWhy o op r o'
 
 def specCore (c : Conf) (o : Obs) (op : Op) (r : Reply) (o' : Obs) : Bool := (specCoreWhy c o op r o').isNone
 def specStore (o : Obs) (op : Op) (r : Reply) (o' : Obs) : Bool := (specStoreWhy o op r o').isNone
@@ -262,7 +287,7 @@ def obsOf (c : Conf) (s : State) : Obs :=
   { now := s.now
     leases := s.leases.map Lease.view
     hosts := entriesOf s (dedup s.hostKeys) s.hosts
-    ips := entriesOf s (dedup s.ipKeys) s.ips
+    ips := entriesOf s (dedup (s.ipKeys ++ s.leases.map (·.ip))) s.ips
     bits := (List.range (c.stop + 1 - c.start)).map s.bits
     extraBits := 0
     disk := s.disk }
